@@ -24,6 +24,10 @@ Section Proofs.
   Notation tgstep := (tgstep match_log).
   Notation tgrun := (tgrun match_log).
   Notation theads_ok := (theads_ok match_log).
+  Notation td10_free := (td10_free match_log).
+  Notation d10_free := (d10_free match_log).
+  Notation range_clear := (range_clear match_log).
+  Notation sync_ranges_of := (@sync_ranges_of LogT).
   Notation rkey := (fun p : pev titem => t_key (pe_ev p)).
   Notation core_commit := (Syncer.commit_range (@t_key LogT) ukey_eqb (@t_admissible LogT) (@t_merge LogT)).
 
@@ -181,11 +185,11 @@ Section Proofs.
   Qed.
 
   (* one range committed *)
-  Lemma commit_trange_finv (o : bool) (v : view) (core : state titem) dec fi a s e h R :
+  Lemma commit_trange_finv (o : bool) (v : view) (core : state titem) dec fi a s e h :
     let rows := st_rows core in
     let st := mktstate core dec fi in
-    0 <= s -> s <= e -> e <= head_number v -> e - s < R ->
-    no_early_match match_log R v ->
+    0 <= s -> s <= e -> e <= head_number v ->
+    range_clear v s e ->
     rows = rows_of v a (s - 1) ->
     st_rows (core_commit (node_of_view v) core s e h) = rows ++ rows_of v s e ->
     NoDup (reg_keys (rows ++ rows_of v s e)) ->
@@ -194,7 +198,7 @@ Section Proofs.
                 = Some (mktstate (core_commit (node_of_view v) core s e h) dec fi') /\
                 finv v e (rows ++ rows_of v s e) dec fi'.
   Proof.
-    intros rows st Hs Hse He HR Hne Hrows Hcore Hnd (Hf1 & Hf2 & Hf3).
+    intros rows st Hs Hse He Hclear Hrows Hcore Hnd (Hf1 & Hf2 & Hf3).
     assert (Hndrows : NoDup (reg_keys rows)) by (unfold reg_keys in *; rewrite map_app in Hnd; eapply NoDup_app_l; eauto).
     assert (Hrowsreg : forall p, In p rows -> exists u, pe_ev p = IReg u).
     { intros p Hp. fold rows in Hrows. rewrite Hrows in Hp. eapply rows_are_regs; eauto. }
@@ -275,7 +279,7 @@ Section Proofs.
           { apply klookup_none. intros Hin2. apply Hfresh. unfold reg_keys. apply in_map_iff in Hin2.
             destruct Hin2 as (p & Hk & Hp). apply in_map_iff. exists p. split; [exact Hk|apply Hact_sub; exact Hp]. }
           rewrite E3. reflexivity. }
-        rewrite E2. right. eapply first_fire_new_none; eauto.
+        rewrite E2. right. apply Hclear. exact Hr.
   Qed.
 
   (* rollback *)
@@ -358,68 +362,85 @@ Section Proofs.
     rewrite Hext. exact Hnd.
   Qed.
 
+  Definition synced_at (v : view) (st : tstate) (k : Z) : Prop :=
+    exists h, hash_at v k = Some h /\ st_status (ts_core st) = Some (k, h) /\
+              st_rows (ts_core st) = rows_of v fs k /\
+              finv v k (st_rows (ts_core st)) (ts_decrypted st) (ts_fired st).
+
+  Lemma pop_n_total n fsx : exists bad rest, pop_n n fsx = (bad, rest).
+  Proof. destruct (pop_n n fsx) as [bad rest]. eauto. Qed.
+
   Lemma trange_loop_finv (v : view) :
-    tview_ok v -> quiet_before (@t_admissible LogT) v fs -> no_early_match match_log (fl_range fl) v ->
-    forall rs s (st : tstate) orders,
+    tview_ok v -> quiet_before (@t_admissible LogT) v fs ->
+    forall rs s (st : tstate) orders rpc db,
       ranges_cover s (head_number v) (fl_range fl) rs -> 0 <= s ->
+      (forall a b, In (a, b) rs -> range_clear v a b) ->
       st_rows (ts_core st) = rows_of v fs (s - 1) ->
       finv v (s - 1) (st_rows (ts_core st)) (ts_decrypted st) (ts_fired st) ->
-      let '(st2, r, wrote) := trange_loop (node_of_view v) st rs orders in
-      r = Ok /\
-      match rs with
-      | [] => st2 = st /\ wrote = false
-      | _ => wrote = true /\ ts_decrypted st2 = ts_decrypted st /\
-             exists h, hash_at v (head_number v) = Some h /\
-                       st_status (ts_core st2) = Some (head_number v, h) /\
-                       st_rows (ts_core st2) = rows_of v fs (head_number v) /\
-                       finv v (head_number v) (st_rows (ts_core st2)) (ts_decrypted st2) (ts_fired st2)
-      end.
+      let '(st2, r, wrote) := trange_loop (node_of_view v) st rs orders rpc db in
+      (wrote = false /\ st2 = st) \/
+      (wrote = true /\ exists k, s <= k <= head_number v /\ synced_at v st2 k).
   Proof.
-    intros Hvo Hq Hne.
-    induction rs as [|[a b] rest IH]; intros s st orders Hcov Hs Hrows Hfinv; [simpl; auto|].
+    intros Hvo Hq.
+    induction rs as [|[a b] rest IH]; intros s st orders rpc db Hcov Hs Hclear Hrows Hfinv; [simpl; left; auto|].
     simpl in Hcov. destruct Hcov as (-> & Hsb & Hbe & Hlen & Hlast & Hfull & Hrest).
     cbn [TriggerSync.trange_loop].
+    destruct (pop rpc) as [fh rpc1]. destruct (is_fail fh); [left; auto|].
     change (n_hash (node_of_view v) b) with (hash_at v b).
     destruct (hash_at_in_range titem v b ltac:(lia)) as [hb Hhb]. rewrite Hhb.
+    destruct (pop rpc1) as [fr rpc2]. destruct (pop db) as [fa db1].
+    destruct (pop_n (length (active st s)) rpc2) as [ft rpc3].
+    destruct (is_fail fr || is_fail fa || ft); [left; auto|].
     destruct (popb orders) as [o orders1].
     destruct st as [core dec fi]. cbn [ts_core ts_decrypted ts_fired] in *.
     destruct (core_commit_rows v core s b hb Hvo Hq Hs Hsb Hbe Hrows) as (Hcore & Hext & Hnd).
-    destruct (commit_trange_finv o v core dec fi fs s b hb (fl_range fl) Hs Hsb Hbe Hlen Hne Hrows Hcore
+    destruct (commit_trange_finv o v core dec fi fs s b hb Hs Hsb Hbe (Hclear s b (or_introl eq_refl)) Hrows Hcore
                                  ltac:(rewrite Hext; exact Hnd) Hfinv) as (fi' & Hcommit & Hfinv').
     rewrite Hcommit.
     set (st' := mktstate (core_commit (node_of_view v) core s b hb) dec fi').
-    assert (Hcov' : ranges_cover (b + 1) (head_number v) (fl_range fl) rest).
-    { destruct rest as [|p rest']; [simpl; specialize (Hlast eq_refl); lia|exact Hrest]. }
-    assert (Hrows' : st_rows (ts_core st') = rows_of v fs (b + 1 - 1)).
-    { cbn [st' ts_core]. rewrite Hcore, Hext. f_equal. lia. }
-    assert (Hfinv'' : finv v (b + 1 - 1) (st_rows (ts_core st')) (ts_decrypted st') (ts_fired st')).
-    { cbn [st' ts_core ts_decrypted ts_fired]. rewrite Hcore. replace (b + 1 - 1) with b by lia. exact Hfinv'. }
-    specialize (IH (b + 1) st' orders1 Hcov' ltac:(lia) Hrows' Hfinv'').
-    destruct (trange_loop (node_of_view v) st' rest orders1) as [[st2 r] wrote2].
-    destruct IH as [Hr IH]. split; [exact Hr|]. split; [reflexivity|].
-    destruct rest as [|p rest'].
-    - destruct IH as [-> _]. specialize (Hlast eq_refl). subst b.
-      split; [reflexivity|]. exists hb. split; [exact Hhb|]. split; [reflexivity|].
-      replace (head_number v + 1 - 1) with (head_number v) in * by lia. split; assumption.
-    - destruct IH as (_ & Hdec & h & Hh & Hst & Hrw & Hf). split; [exact Hdec|]. exists h. auto.
+    assert (Hsynced : synced_at v st' b).
+    { exists hb. split; [exact Hhb|]. split; [reflexivity|]. cbn [st' ts_core ts_decrypted ts_fired].
+      rewrite Hcore, Hext. split; [reflexivity|]. rewrite <- Hext. exact Hfinv'. }
+    destruct (pop db1) as [fc db2]. destruct fc.
+    - assert (Hcov' : ranges_cover (b + 1) (head_number v) (fl_range fl) rest).
+      { destruct rest as [|p rest']; [simpl; specialize (Hlast eq_refl); lia|exact Hrest]. }
+      destruct Hsynced as (h' & Hh' & Hst' & Hrows' & Hf').
+      specialize (IH (b + 1) st' orders1 rpc3 db2 Hcov' ltac:(lia) (fun x y Hxy => Hclear x y (or_intror Hxy))).
+      replace (b + 1 - 1) with b in IH by lia. specialize (IH Hrows' Hf').
+      destruct (trange_loop (node_of_view v) st' rest orders1 rpc3 db2) as [[st2 r] wrote2].
+      right. split; [reflexivity|].
+      destruct IH as [[_ ->]|[_ (k & Hk & Hsy)]].
+      + exists b. split; [lia|]. exists h'. auto.
+      + exists k. split; [lia|exact Hsy].
+    - left. auto.
+    - right. split; [reflexivity|]. exists b. split; [lia|exact Hsynced].
   Qed.
 
   Lemma finv_nil_rows (v w : view) k k' dec fi : finv w k [] dec fi -> finv v k' [] dec fi.
   Proof. intros (H1 & H2 & _). split; [exact H1|]. split; [exact H2|]. intros r []. Qed.
 
-  Lemma tsync_tinv (v w : view) (st : tstate) orders :
-    tview_ok v -> quiet_before (@t_admissible LogT) v fs -> no_early_match match_log (fl_range fl) v ->
+  Lemma synced_at_tinv (v : view) st k : 0 <= k <= head_number v -> synced_at v st k -> tinv st v.
+  Proof.
+    intros Hk (h & Hh & Hst & Hrows & Hf). split.
+    - unfold inv. rewrite Hst. split; [exact Hk|]. split; [exact Hrows|right; exact Hh].
+    - unfold tpos. rewrite Hst. exact Hf.
+  Qed.
+
+  Lemma tsync_tinv (v w : view) (st : tstate) orders rpc db :
+    tview_ok v -> quiet_before (@t_admissible LogT) v fs -> d10_free fl v st ->
     tinv st w ->
     (st_status (ts_core st) <> None -> tview_ok w /\ hash_determines w v) ->
     head_ok fl (mkg (ts_core st) w) v ->
-    let '(st', r, wrote) := tsync fl (node_of_view v) st orders in
-    r = Ok /\ ((wrote = false /\ st' = st) \/ (wrote = true /\ tinv st' v)).
+    let '(st', r, wrote) := tsync fl (node_of_view v) st orders rpc db in
+    (wrote = false /\ st' = st) \/ (wrote = true /\ tinv st' v).
   Proof.
-    intros Hvo Hq Hne [Hcinv Hfinv] Hw Hok.
+    intros Hvo Hq Hd10 [Hcinv Hfinv] Hw Hok.
     assert (Hbound : head_number v + fl_range fl < two64) by (destruct Hvo as (_ & _ & _ & Hb); unfold two64; lia).
     (* the common second phase *)
-    assert (Hphase2 : forall (st1 : tstate) orders1 wrote1 start,
+    assert (Hphase2 : forall (st1 : tstate) orders1 rpc1 db1 wrote1 start,
       start = next_start fl (ts_core st1) -> 0 <= start ->
+      (forall rs, get_sync_ranges start (head_number v) (fl_range fl) = RangesDone rs ->
+                  forall a b, In (a, b) rs -> range_clear v a b) ->
       (start <= head_number v -> st_rows (ts_core st1) = rows_of v fs (start - 1) /\
                                  finv v (start - 1) (st_rows (ts_core st1)) (ts_decrypted st1) (ts_fired st1)) ->
       ((wrote1 = false /\ st1 = st) \/ (wrote1 = true /\ tinv st1 v)) ->
@@ -427,26 +448,24 @@ Section Proofs.
         (if start >? n_number (node_of_view v) then (st1, Ok, wrote1)
          else match get_sync_ranges start (n_number (node_of_view v)) (fl_range fl) with
               | RangesOutOfFuel => (st1, OutOfFuel, wrote1)
-              | RangesDone rs => let '(st2, r, wrote2) := trange_loop (node_of_view v) st1 rs orders1 in (st2, r, wrote1 || wrote2)
+              | RangesDone rs => let '(st2, r, wrote2) := trange_loop (node_of_view v) st1 rs orders1 rpc1 db1 in (st2, r, wrote1 || wrote2)
               end) in
-      r = Ok /\ ((wrote = false /\ st' = st) \/ (wrote = true /\ tinv st' v))).
-    { intros st1 orders1 wrote1 start Hstart Hs0 Hready Hprev.
+      (wrote = false /\ st' = st) \/ (wrote = true /\ tinv st' v)).
+    { intros st1 orders1 rpc1 db1 wrote1 start Hstart Hs0 Hclr Hready Hprev.
       change (n_number (node_of_view v)) with (head_number v).
-      destruct (start >? head_number v) eqn:Hgt; [split; [reflexivity|exact Hprev]|].
+      destruct (start >? head_number v) eqn:Hgt; [exact Hprev|].
       assert (Hle : start <= head_number v) by (destruct (Z.gtb_spec start (head_number v)); [discriminate|lia]).
       destruct (sync_ranges_cover start (head_number v) (fl_range fl) Hs0 HR Hbound) as (rs & Hrs & Hcov).
       rewrite Hrs. destruct (Hready Hle) as [Hrows1 Hfinv1].
-      assert (H := trange_loop_finv v Hvo Hq Hne rs start st1 orders1 Hcov Hs0 Hrows1 Hfinv1).
-      destruct (trange_loop (node_of_view v) st1 rs orders1) as [[st2 r] wrote2].
-      destruct H as [Hr H]. split; [exact Hr|].
-      destruct rs as [|p rs'].
-      { simpl in Hcov. lia. }
-      destruct H as (-> & Hdec & h & Hh & Hst2 & Hrows2 & Hfinv2).
-      right. split; [apply orb_true_r|].
-      split.
-      - unfold inv. rewrite Hst2. split; [unfold head_number in *; lia|]. split; [exact Hrows2|right; exact Hh].
-      - unfold tpos. rewrite Hst2. exact Hfinv2. }
+      assert (H := trange_loop_finv v Hvo Hq rs start st1 orders1 rpc1 db1 Hcov Hs0 (Hclr rs Hrs) Hrows1 Hfinv1).
+      destruct (trange_loop (node_of_view v) st1 rs orders1 rpc1 db1) as [[st2 r] wrote2].
+      destruct H as [[-> ->]|[-> (k & Hk & Hsy)]].
+      - rewrite orb_false_r. exact Hprev.
+      - right. split; [apply orb_true_r|]. apply (synced_at_tinv v st2 k); [lia|exact Hsy]. }
     unfold TriggerSync.tsync.
+    destruct (pop db) as [f1 db1]. destruct (is_fail f1); [left; auto|].
+    unfold d10_free, TriggerSync.sync_ranges_of in Hd10.
+    unfold reorg_target in *.
     destruct (st_status (ts_core st)) as [[k h]|] eqn:Hst.
     - (* something is synced *)
       destruct (Hw ltac:(discriminate)) as [Hwo Hdet].
@@ -456,8 +475,10 @@ Section Proofs.
       unfold tpos in Hfinv. rewrite Hst in Hfinv.
       destruct (num_reorged fl k h (node_of_view v) <=? 0) eqn:Hn.
       + apply Z.leb_le in Hn.
-        apply (Hphase2 st orders false (next_start fl (ts_core st)) eq_refl).
+        destruct (pop db1) as [f4 db2]. destruct (is_fail f4); [left; auto|].
+        apply (Hphase2 st orders rpc db2 false (next_start fl (ts_core st)) eq_refl).
         * unfold next_start. rewrite Hst. lia.
+        * intros rs Hrs a b Hab. apply Hd10. rewrite Hrs. exact Hab.
         * unfold next_start. rewrite Hst. intros Hle. replace (k + 1 - 1) with k by lia.
           assert (Hag := Hno Hn Hle). split.
           -- rewrite Hrows. apply (rows_of_agree titem (@t_admissible LogT) w v k); [exact Hag|exact Hfs|lia].
@@ -465,7 +486,9 @@ Section Proofs.
         * left. auto.
       + apply Z.leb_gt in Hn. destruct (Hyes Hn) as (Hkn & Hhead & Hag).
         set (n := num_reorged fl k h (node_of_view v)) in *.
+        destruct (pop db1) as [f2 db2]. destruct (is_fail f2); [left; auto|].
         destruct (popb orders) as [o orders1].
+        destruct (pop db2) as [f3 db3].
         destruct st as [core dec fi]. cbn [ts_core ts_decrypted ts_fired] in *.
         assert (Hndw : NoDup (reg_keys (st_rows core))).
         { rewrite Hrows. destruct Hwo as (_ & _ & Hku & _).
@@ -479,17 +502,37 @@ Section Proofs.
         { split.
           - unfold inv. rewrite Hst1. split; [lia|]. split; [rewrite Hcore1, Hrows1; exact Hrowsv|left; reflexivity].
           - unfold tpos. rewrite Hst1. rewrite Hcore1, Hrows1. apply (finv_agree v w); [exact Hag|exact Hfinv1]. }
-        apply (Hphase2 st1 orders1 true (next_start fl (ts_core st1)) eq_refl).
-        * unfold next_start. rewrite Hst1. lia.
-        * unfold next_start. rewrite Hst1. intros _. replace (k - n + 1 - 1) with (k - n) by lia.
-          destruct Htinv1 as [_ Hf]. unfold tpos in Hf. rewrite Hst1 in Hf.
-          split; [rewrite Hcore1, Hrows1; exact Hrowsv|exact Hf].
+        assert (Hcontinue : forall dbx,
+          let '(st', r, wrote) :=
+            (let '(f4, dbx) := pop dbx in
+             if is_fail f4 then (st1, Err, true) else
+             let start := next_start fl (ts_core st1) in
+             let e := n_number (node_of_view v) in
+             if start >? e then (st1, Ok, true) else
+             match get_sync_ranges start e (fl_range fl) with
+             | RangesOutOfFuel => (st1, OutOfFuel, true)
+             | RangesDone rs => let '(st2, r, wrote2) := trange_loop (node_of_view v) st1 rs orders1 rpc dbx in (st2, r, true || wrote2)
+             end) in
+          (wrote = false /\ st' = mktstate core dec fi) \/ (wrote = true /\ tinv st' v)).
+        { intros dbx. destruct (pop dbx) as [f4 dbx1]. destruct (is_fail f4); [right; auto|].
+          apply (Hphase2 st1 orders1 rpc dbx1 true (next_start fl (ts_core st1)) eq_refl).
+          * unfold next_start. rewrite Hst1. lia.
+          * intros rs Hrs a b Hab. apply Hd10. unfold next_start in Hrs. rewrite Hst1 in Hrs. rewrite Hrs. exact Hab.
+          * unfold next_start. rewrite Hst1. intros _. replace (k - n + 1 - 1) with (k - n) by lia.
+            destruct Htinv1 as [_ Hf]. unfold tpos in Hf. rewrite Hst1 in Hf.
+            split; [rewrite Hcore1, Hrows1; exact Hrowsv|exact Hf].
+          * right. auto. }
+        destruct f3.
+        * exact (Hcontinue db3).
+        * left. auto.
         * right. auto.
     - (* nothing synced yet *)
       assert (Hc := Hcinv). unfold inv in Hc. rewrite Hst in Hc.
       unfold tpos in Hfinv. rewrite Hst in Hfinv.
-      apply (Hphase2 st orders false (next_start fl (ts_core st)) eq_refl).
+      destruct (pop db1) as [f4 db2]. destruct (is_fail f4); [left; auto|].
+      apply (Hphase2 st orders rpc db2 false (next_start fl (ts_core st)) eq_refl).
       + unfold next_start. rewrite Hst. exact Hfs.
+      + intros rs Hrs a b Hab. apply Hd10. rewrite Hrs. exact Hab.
       + unfold next_start. rewrite Hst. intros _. rewrite Hc in *. split.
         * symmetry. apply rows_of_empty. lia.
         * eapply finv_nil_rows; eauto.
@@ -497,7 +540,7 @@ Section Proofs.
   Qed.
 
   (* histories *)
-  Notation tuniverse_ok := (tuniverse_ok match_log fl).
+  Notation tuniverse_ok := (tuniverse_ok fl).
 
   Definition tginv (U : list view) (g : tgstate LogT) : Prop :=
     tinv (tg_st g) (tg_view g) /\ (st_status (ts_core (tg_st g)) <> None -> In (tg_view g) U).
@@ -508,38 +551,51 @@ Section Proofs.
     split; [exact H1|]. unfold tpos in *. cbn [ts_core ts_decrypted ts_fired]. apply finv_decrypt. exact H2.
   Qed.
 
+  Definition op_ok (g : tgstate LogT) (op : top LogT) : Prop :=
+    match op with
+    | TSync v _ _ _ => head_ok fl (mkg (ts_core (tg_st g)) (tg_view g)) v /\ d10_free fl v (tg_st g)
+    | TDecrypt _ => True
+    end.
+
   Lemma tgstep_inv (U : list view) g op :
-    tuniverse_ok U -> (forall v o, op = TSync v o -> In v U) -> tginv U g ->
-    match op with TSync v _ => head_ok fl (mkg (ts_core (tg_st g)) (tg_view g)) v | TDecrypt _ => True end ->
+    tuniverse_ok U -> (forall v o r d, op = TSync v o r d -> In v U) -> tginv U g -> op_ok g op ->
     tginv U (tgstep fl g op).
   Proof.
     intros [HU Hdet] Hin [Hinv Hghost] Hok. destruct g as [st w]. cbn [tg_st tg_view] in *.
-    destruct op as [v orders|k]; cbn [TriggerSync.tgstep tg_st tg_view].
-    - specialize (Hin v orders eq_refl). destruct (HU v Hin) as (Hvo & Hq & Hne).
-      assert (H := tsync_tinv v w st orders Hvo Hq Hne Hinv
-                     (fun Hs => conj (proj1 (HU w (Hghost Hs))) (Hdet w v (Hghost Hs) Hin)) Hok).
-      destruct (tsync fl (node_of_view v) st orders) as [[st' r] wrote].
-      destruct H as [_ [[-> ->]|[-> Hinv']]]; cbn [tg_st tg_view].
+    destruct op as [v orders rpc db|k]; cbn [TriggerSync.tgstep tg_st tg_view].
+    - specialize (Hin v orders rpc db eq_refl). destruct (HU v Hin) as (Hvo & Hq).
+      destruct Hok as [Hhead Hd10]. cbn [tg_st tg_view] in *.
+      assert (H := tsync_tinv v w st orders rpc db Hvo Hq Hd10 Hinv
+                     (fun Hs => conj (proj1 (HU w (Hghost Hs))) (Hdet w v (Hghost Hs) Hin)) Hhead).
+      destruct (tsync fl (node_of_view v) st orders rpc db) as [[st' r] wrote].
+      destruct H as [[-> ->]|[-> Hinv']]; cbn [tg_st tg_view].
       + split; assumption.
       + split; [exact Hinv'|]. intros _. exact Hin.
     - split; [apply tdecrypt_tinv; exact Hinv|].
       intros Hs. apply Hghost. unfold tdecrypt in Hs. destruct (_ && _); exact Hs.
   Qed.
 
-  Lemma tgrun_inv (U : list view) : tuniverse_ok U ->
-    forall ops g, (forall v o, In (TSync v o) ops -> In v U) -> tginv U g -> theads_ok fl g ops ->
-                  tginv U (fold_left (tgstep fl) ops g).
+  Lemma op_ok_of (g : tgstate LogT) op rest :
+    theads_ok fl g (op :: rest) -> td10_free fl g (op :: rest) -> op_ok g op.
   Proof.
-    intros HU. induction ops as [|op rest IH]; intros g Hin Hg Hok; [exact Hg|].
-    cbn [fold_left]. cbn [TriggerSync.theads_ok] in Hok. destruct Hok as [Hok1 Hok2].
-    apply IH; [intros v o Hv; apply (Hin v o); right; exact Hv| |exact Hok2].
-    apply tgstep_inv; auto.
-    all: try (intros v o ->; apply (Hin v o); left; reflexivity).
-    all: try (destruct op; exact Hok1).
+    cbn [TriggerSync.theads_ok TriggerSync.td10_free]. intros [H1 _] [H2 _]. destruct op; [split; assumption|exact I].
   Qed.
 
-  Lemma top_views_In (ops : list (top LogT)) v o : In (TSync v o) ops -> In v (top_views ops).
-  Proof. intros H. unfold top_views. apply in_flat_map. exists (TSync v o). split; [exact H|left; reflexivity]. Qed.
+  Lemma tgrun_inv (U : list view) : tuniverse_ok U ->
+    forall ops g, (forall v o r d, In (TSync v o r d) ops -> In v U) -> tginv U g ->
+                  theads_ok fl g ops -> td10_free fl g ops ->
+                  tginv U (fold_left (tgstep fl) ops g).
+  Proof.
+    intros HU. induction ops as [|op rest IH]; intros g Hin Hg Hok Hd; [exact Hg|].
+    cbn [fold_left]. assert (Hop := op_ok_of g op rest Hok Hd).
+    cbn [TriggerSync.theads_ok TriggerSync.td10_free] in Hok, Hd. destruct Hok as [_ Hok2]. destruct Hd as [_ Hd2].
+    apply IH; [intros v o r d Hv; apply (Hin v o r d); right; exact Hv| |exact Hok2|exact Hd2].
+    apply tgstep_inv; auto.
+    intros v o r d ->. apply (Hin v o r d). left. reflexivity.
+  Qed.
+
+  Lemma top_views_In (ops : list (top LogT)) v o r d : In (TSync v o r d) ops -> In v (top_views ops).
+  Proof. intros H. unfold top_views. apply in_flat_map. exists (TSync v o r d). split; [exact H|left; reflexivity]. Qed.
 
   Lemma tginit_inv U : tginv U tginit.
   Proof.
@@ -548,26 +604,27 @@ Section Proofs.
     - intros H. exfalso. apply H. reflexivity.
   Qed.
 
-  Theorem trigger_exact (ops : list (top LogT)) (v : view) (orders : list bool) :
-    let history := ops ++ [TSync v orders] in
-    tuniverse_ok (top_views history) -> theads_ok fl tginit history ->
+  Theorem trigger_exact (ops : list (top LogT)) (v : view) (orders : list bool) (rpc db : list fault) :
+    let history := ops ++ [TSync v orders rpc db] in
+    tuniverse_ok (top_views history) -> theads_ok fl tginit history -> td10_free fl tginit history ->
     let st := tg_st (tgrun fl history) in
     forall k h b, st_status (ts_core st) = Some (k, h) -> block_at v k = Some b -> bk_hash b = h ->
+      st_rows (ts_core st) = rows_of v fs k /\
       NoDup (map f_key (ts_fired st)) /\
       (forall f, In f (ts_fired st) -> should_fire match_log v fs k f) /\
       (forall r l, In r (rows_of v fs k) -> has_key (t_key (pe_ev r)) (ts_decrypted st) = false ->
                    first_fire v k r = Some l -> In (fire_row r l) (ts_fired st)).
   Proof.
-    intros history HU Hok st k h b Hst Hb Hh.
+    intros history HU Hok Hd10 st k h b Hst Hb Hh.
     assert (Hg : tginv (top_views history) (tgrun fl history)).
     { unfold TriggerSync.tgrun. apply tgrun_inv; auto.
-      - intros u o Hu. eapply top_views_In; eauto.
+      - intros u o r d Hu. eapply top_views_In; eauto.
       - apply tginit_inv. }
     destruct Hg as [[Hcinv Hfinv] Hghost]. fold st in Hcinv, Hfinv, Hghost.
     unfold inv in Hcinv. unfold tpos in Hfinv. rewrite Hst in Hcinv, Hfinv.
     destruct Hcinv as (Hk & Hrows & Hhash).
     assert (Hv : In v (top_views history)).
-    { apply (top_views_In history v orders). unfold history. apply in_or_app. right. left. reflexivity. }
+    { apply (top_views_In history v orders rpc db). unfold history. apply in_or_app. right. left. reflexivity. }
     destruct HU as [HU Hdet]. destruct (HU v Hv) as ((_ & Hhn & _) & _).
     assert (Hne : h <> []) by (rewrite <- Hh; apply Hhn; eapply block_at_In; eauto).
     destruct Hhash as [Hhash|Hhash]; [contradiction|].
@@ -577,6 +634,7 @@ Section Proofs.
     { eapply hash_at_determines; [apply Hdet; assumption|exact Hhash|]. unfold hash_at. rewrite Hb. simpl. congruence. }
     assert (Hrowsv : st_rows (ts_core st) = rows_of v fs k).
     { rewrite Hrows. apply (rows_of_agree titem (@t_admissible LogT) w v k); [exact Hag|exact Hfs|lia]. }
+    split; [exact Hrowsv|].
     apply (finv_agree v w) in Hfinv; [|exact Hag]. rewrite Hrowsv in Hfinv.
     destruct Hfinv as (H1 & H2 & H3). split; [exact H1|]. split.
     - intros f Hf. specialize (H2 f Hf). unfold reg_keys in H2. apply in_map_iff in H2.
@@ -588,6 +646,57 @@ Section Proofs.
       + destruct H3 as (l' & Hl' & ->). rewrite Hl in Hl'. injection Hl' as <-.
         apply flookup_some in E. apply E.
       + destruct H3 as [H3|H3]; congruence.
+  Qed.
+
+  (* the chain-level exclusion implies the exact one along every history *)
+  Lemma cover_In s e r rs a b : ranges_cover s e r rs -> In (a, b) rs -> s <= a /\ a <= b /\ b <= e /\ b - a < r.
+  Proof.
+    revert s. induction rs as [|[x y] rest IH]; intros s Hcov Hin; [destruct Hin|].
+    simpl in Hcov. destruct Hcov as (-> & H1 & H2 & H3 & _ & _ & Hrest).
+    destruct Hin as [[= <- <-]|Hin]; [lia|].
+    destruct rest as [|p rest']; [destruct Hin|]. specialize (IH (y + 1) Hrest Hin). lia.
+  Qed.
+
+  Lemma no_early_d10_free (v w : view) (st : tstate) :
+    tview_ok v -> tinv st w -> no_early_match match_log (fl_range fl) v -> d10_free fl v st.
+  Proof.
+    intros (Hne & Hhn & Hku & Hb) [Hcinv _] Hnem s e Hin.
+    unfold TriggerSync.sync_ranges_of in Hin.
+    set (start := match reorg_target fl (node_of_view v) st with Some to => to + 1 | None => next_start fl (ts_core st) end) in *.
+    assert (Hs0 : 0 <= start).
+    { unfold start, reorg_target, next_start. unfold inv in Hcinv.
+      destruct (st_status (ts_core st)) as [[k h]|]; [|exact Hfs].
+      destruct Hcinv as (Hk & _). destruct (num_reorged fl k h (node_of_view v) <=? 0); [lia|].
+      assert (H := num_reorged_le titem fl k h (node_of_view v) ltac:(lia)). lia. }
+    destruct (sync_ranges_cover start (head_number v) (fl_range fl) Hs0 HR ltac:(unfold two64; lia)) as (rs & Hrs & Hcov).
+    rewrite Hrs in Hin. destruct (cover_In _ _ _ _ _ _ Hcov Hin) as (H1 & H2 & H3 & H4).
+    intros p Hp. eapply first_fire_new_none; eauto; lia.
+  Qed.
+
+  Lemma no_early_td10_free (U : list view) : tuniverse_ok U -> (forall u, In u U -> no_early_match match_log (fl_range fl) u) ->
+    forall ops g, (forall v o r d, In (TSync v o r d) ops -> In v U) -> tginv U g -> theads_ok fl g ops -> td10_free fl g ops.
+  Proof.
+    intros HU Hnem. induction ops as [|op rest IH]; intros g Hin Hg Hok; [exact I|].
+    assert (Hd : match op with TSync v _ _ _ => d10_free fl v (tg_st g) | TDecrypt _ => True end).
+    { destruct op as [v o r d|k]; [|exact I].
+      assert (Hv : In v U) by (apply (Hin v o r d); left; reflexivity).
+      destruct HU as [HU _]. destruct (HU v Hv) as [Hvo _]. destruct Hg as [Hti _].
+      eapply no_early_d10_free; eauto. }
+    cbn [TriggerSync.td10_free]. split; [exact Hd|].
+    cbn [TriggerSync.theads_ok] in Hok. destruct Hok as [Hok1 Hok2].
+    apply IH; [intros v o r d Hv; apply (Hin v o r d); right; exact Hv| |exact Hok2].
+    apply tgstep_inv; auto.
+    - intros v o r d ->. apply (Hin v o r d). left. reflexivity.
+    - destruct op; [split; assumption|exact I].
+  Qed.
+
+  Corollary no_early_history (ops : list (top LogT)) :
+    tuniverse_ok (top_views ops) -> (forall u, In u (top_views ops) -> no_early_match match_log (fl_range fl) u) ->
+    theads_ok fl tginit ops -> td10_free fl tginit ops.
+  Proof.
+    intros HU Hnem Hok. apply (no_early_td10_free (top_views ops)); auto.
+    - intros v o r d Hv. eapply top_views_In; eauto.
+    - apply tginit_inv.
   Qed.
 
   End Exact.
@@ -669,35 +778,47 @@ Section Proofs.
   (* a predicate preserved by range commits and rollbacks is preserved by Sync *)
   Lemma trange_loop_preserves (P : tstate -> Prop) nd :
     (forall o st s e h st', commit_trange o nd st s e h = Some st' -> P st -> P st') ->
-    forall rs st orders, P st -> P (fst (fst (trange_loop nd st rs orders))).
+    forall rs st orders rpc db, P st -> P (fst (fst (trange_loop nd st rs orders rpc db))).
   Proof.
-    intros Hc. induction rs as [|[s e] rest IH]; intros st orders H; simpl; [exact H|].
-    destruct (n_hash nd e) as [h|]; [|exact H]. destruct (popb orders) as [o orders1].
+    intros Hc. induction rs as [|[s e] rest IH]; intros st orders rpc db H; simpl; [exact H|].
+    destruct (pop rpc) as [fh rpc1]. destruct (is_fail fh); [exact H|].
+    destruct (n_hash nd e) as [h|]; [|exact H].
+    destruct (pop rpc1) as [fr rpc2]. destruct (pop db) as [fa db1].
+    destruct (pop_n (length (active st s)) rpc2) as [ft rpc3].
+    destruct (is_fail fr || is_fail fa || ft); [exact H|].
+    destruct (popb orders) as [o orders1].
     destruct (commit_trange o nd st s e h) as [st'|] eqn:E; [|exact H].
-    specialize (IH st' orders1 (Hc _ _ _ _ _ _ E H)).
-    destruct (trange_loop nd st' rest orders1) as [[st2 r] w]. exact IH.
+    assert (H' := Hc _ _ _ _ _ _ E H).
+    destruct (pop db1) as [fc db2]. destruct fc; [|exact H|exact H'].
+    specialize (IH st' orders1 rpc3 db2 H').
+    destruct (trange_loop nd st' rest orders1 rpc3 db2) as [[st2 r] w]. exact IH.
   Qed.
 
   Lemma tsync_preserves (P : tstate -> Prop) fl nd :
     (forall o st s e h st', commit_trange o nd st s e h = Some st' -> P st -> P st') ->
     (forall o st to, P st -> P (trollback o st to)) ->
-    forall st orders, P st -> P (fst (fst (tsync fl nd st orders))).
+    forall st orders rpc db, P st -> P (fst (fst (tsync fl nd st orders rpc db))).
   Proof.
-    intros Hc Hr st orders H. unfold TriggerSync.tsync.
-    assert (Hgen : forall st1 orders1 w1, P st1 ->
-      P (fst (fst (let start := next_start fl (ts_core st1) in
+    intros Hc Hr st orders rpc db H. unfold TriggerSync.tsync.
+    assert (Hgen : forall st1 orders1 dbx w1, P st1 ->
+      P (fst (fst (let '(f4, dbx) := pop dbx in
+        if is_fail f4 then (st1, Err, w1) else
+        let start := next_start fl (ts_core st1) in
         if start >? n_number nd then (st1, Ok, w1) else
         match get_sync_ranges start (n_number nd) (fl_range fl) with
         | RangesOutOfFuel => (st1, OutOfFuel, w1)
-        | RangesDone rs => let '(st2, r, w2) := trange_loop nd st1 rs orders1 in (st2, r, w1 || w2)
+        | RangesDone rs => let '(st2, r, w2) := trange_loop nd st1 rs orders1 rpc dbx in (st2, r, w1 || w2)
         end)))).
-    { intros st1 orders1 w1 H1. cbv zeta. destruct (_ >? _); [exact H1|].
+    { intros st1 orders1 dbx w1 H1. destruct (pop dbx) as [f4 dbx1]. destruct (is_fail f4); [exact H1|].
+      cbv zeta. destruct (_ >? _); [exact H1|].
       destruct (get_sync_ranges _ _ _) as [rs|]; [|exact H1].
-      assert (H2 := trange_loop_preserves P nd Hc rs st1 orders1 H1).
-      destruct (trange_loop nd st1 rs orders1) as [[st2 r] w2]. exact H2. }
-    destruct (st_status (ts_core st)) as [[k h]|]; [|apply Hgen; exact H].
-    destruct (num_reorged fl k h nd <=? 0); [apply Hgen; exact H|].
-    destruct (popb orders) as [o orders1]. apply Hgen. apply Hr. exact H.
+      assert (H2 := trange_loop_preserves P nd Hc rs st1 orders1 rpc dbx1 H1).
+      destruct (trange_loop nd st1 rs orders1 rpc dbx1) as [[st2 r] w2]. exact H2. }
+    destruct (pop db) as [f1 db1]. destruct (is_fail f1); [exact H|].
+    destruct (reorg_target fl nd st) as [to|]; [|apply Hgen; exact H].
+    destruct (pop db1) as [f2 db2]. destruct (is_fail f2); [exact H|].
+    destruct (popb orders) as [o orders1]. destruct (pop db2) as [f3 db3].
+    destruct f3; [apply Hgen; apply Hr; exact H|exact H|apply Hr; exact H].
   Qed.
 
   Lemma tgrun_preserves (P : tstate -> Prop) fl :
@@ -707,9 +828,9 @@ Section Proofs.
     forall ops g, P (tg_st g) -> P (tg_st (fold_left (tgstep fl) ops g)).
   Proof.
     intros Hc Hr Hd. induction ops as [|op rest IH]; intros g Hg; [exact Hg|]. cbn [fold_left]. apply IH.
-    destruct op as [v orders|k]; cbn [TriggerSync.tgstep].
-    - assert (H := tsync_preserves P fl (node_of_view v) (Hc _) Hr (tg_st g) orders Hg).
-      destruct (tsync fl (node_of_view v) (tg_st g) orders) as [[st' r] w]. exact H.
+    destruct op as [v orders rpc db|k]; cbn [TriggerSync.tgstep].
+    - assert (H := tsync_preserves P fl (node_of_view v) (Hc _) Hr (tg_st g) orders rpc db Hg).
+      destruct (tsync fl (node_of_view v) (tg_st g) orders rpc db) as [[st' r] w]. exact H.
     - cbn [tg_st]. apply Hd. exact Hg.
   Qed.
 
@@ -731,13 +852,13 @@ Section Proofs.
     assert (Hgen : forall g, ts_decrypted (tg_st g) = [] -> ts_decrypted (tg_st (fold_left (tgstep fl) ops g)) = []).
     { induction ops as [|op rest IH]; intros g Hg; [exact Hg|]. cbn [fold_left]. apply IH.
       - intros k Hk. apply (Hnd k). right. exact Hk.
-      - destruct op as [v orders|k]; [|exfalso; apply (Hnd k); left; reflexivity].
+      - destruct op as [v orders rpc db|k]; [|exfalso; apply (Hnd k); left; reflexivity].
         cbn [TriggerSync.tgstep].
         assert (H := tsync_preserves (fun st => ts_decrypted st = []) fl (node_of_view v)).
         specialize (H ltac:(intros o st s e h st'; unfold TriggerSync.commit_trange; destruct (insert_all _ _ _); [intros [= <-]; auto|discriminate])).
         specialize (H ltac:(intros o st to Hd; unfold trollback; cbn [ts_decrypted]; rewrite Hd; reflexivity)).
-        specialize (H (tg_st g) orders Hg).
-        destruct (tsync fl (node_of_view v) (tg_st g) orders) as [[st' r] w]. exact H. }
+        specialize (H (tg_st g) orders rpc db Hg).
+        destruct (tsync fl (node_of_view v) (tg_st g) orders rpc db) as [[st' r] w]. exact H. }
     apply Hgen. reflexivity.
   Qed.
 
@@ -776,29 +897,52 @@ Section Proofs.
   Lemma trollback_any_order o (st : tstate) to : trollback o st to = trollback false st to.
   Proof. destruct o; [apply trollback_order|reflexivity]. Qed.
 
-  Lemma trange_loop_order nd : forall rs (st : tstate) o1 o2, trange_loop nd st rs o1 = trange_loop nd st rs o2.
+  Lemma trange_loop_order nd : forall rs (st : tstate) o1 o2 rpc db,
+    trange_loop nd st rs o1 rpc db = trange_loop nd st rs o2 rpc db.
   Proof.
-    induction rs as [|[s e] rest IH]; intros st o1 o2; simpl; [reflexivity|].
+    induction rs as [|[s e] rest IH]; intros st o1 o2 rpc db; simpl; [reflexivity|].
+    destruct (pop rpc) as [fh rpc1]. destruct (is_fail fh); [reflexivity|].
     destruct (n_hash nd e) as [h|]; [|reflexivity].
+    destruct (pop rpc1) as [fr rpc2]. destruct (pop db) as [fa db1].
+    destruct (pop_n (length (active st s)) rpc2) as [ft rpc3].
+    destruct (is_fail fr || is_fail fa || ft); [reflexivity|].
     destruct (popb o1) as [a o1']. destruct (popb o2) as [b o2'].
     rewrite (commit_trange_any_order a), (commit_trange_any_order b).
     destruct (commit_trange false nd st s e h) as [st'|]; [|reflexivity].
+    destruct (pop db1) as [fc db2]. destruct fc; try reflexivity.
     rewrite (IH st' o1' o2'). reflexivity.
   Qed.
 
-  Theorem oracle_independent fl nd (st : tstate) o1 o2 : tsync fl nd st o1 = tsync fl nd st o2.
+  Theorem oracle_independent fl nd (st : tstate) o1 o2 rpc db :
+    tsync fl nd st o1 rpc db = tsync fl nd st o2 rpc db.
   Proof.
     unfold TriggerSync.tsync.
-    destruct (st_status (ts_core st)) as [[k h]|].
-    - destruct (num_reorged fl k h nd <=? 0).
-      + cbv zeta. destruct (_ >? _); [reflexivity|]. destruct (get_sync_ranges _ _ _) as [rs|]; [|reflexivity].
-        rewrite (trange_loop_order nd rs st o1 o2). reflexivity.
-      + destruct (popb o1) as [a o1']. destruct (popb o2) as [b o2'].
-        rewrite (trollback_any_order a), (trollback_any_order b).
-        cbv zeta. destruct (_ >? _); [reflexivity|]. destruct (get_sync_ranges _ _ _) as [rs|]; [|reflexivity].
-        rewrite (trange_loop_order nd rs _ o1' o2'). reflexivity.
-    - cbv zeta. destruct (_ >? _); [reflexivity|]. destruct (get_sync_ranges _ _ _) as [rs|]; [|reflexivity].
-      rewrite (trange_loop_order nd rs st o1 o2). reflexivity.
+    destruct (pop db) as [f1 db1]. destruct (is_fail f1); [reflexivity|].
+    assert (Hgen : forall st1 oa ob dbx w1,
+      (let '(f4, dbx) := pop dbx in
+        if is_fail f4 then (st1, Err, w1) else
+        let start := next_start fl (ts_core st1) in
+        if start >? n_number nd then (st1, Ok, w1) else
+        match get_sync_ranges start (n_number nd) (fl_range fl) with
+        | RangesOutOfFuel => (st1, OutOfFuel, w1)
+        | RangesDone rs => let '(st2, r, w2) := trange_loop nd st1 rs oa rpc dbx in (st2, r, w1 || w2)
+        end) =
+      (let '(f4, dbx) := pop dbx in
+        if is_fail f4 then (st1, Err, w1) else
+        let start := next_start fl (ts_core st1) in
+        if start >? n_number nd then (st1, Ok, w1) else
+        match get_sync_ranges start (n_number nd) (fl_range fl) with
+        | RangesOutOfFuel => (st1, OutOfFuel, w1)
+        | RangesDone rs => let '(st2, r, w2) := trange_loop nd st1 rs ob rpc dbx in (st2, r, w1 || w2)
+        end)).
+    { intros st1 oa ob dbx w1. destruct (pop dbx) as [f4 dbx1]. destruct (is_fail f4); [reflexivity|].
+      cbv zeta. destruct (_ >? _); [reflexivity|]. destruct (get_sync_ranges _ _ _) as [rs|]; [|reflexivity].
+      rewrite (trange_loop_order nd rs st1 oa ob). reflexivity. }
+    destruct (reorg_target fl nd st) as [to|]; [|apply Hgen].
+    destruct (pop db1) as [f2 db2]. destruct (is_fail f2); [reflexivity|].
+    destruct (popb o1) as [a o1']. destruct (popb o2) as [b o2']. destruct (pop db2) as [f3 db3].
+    rewrite (trollback_any_order a), (trollback_any_order b).
+    destruct f3; [apply Hgen|reflexivity|reflexivity].
   Qed.
 
   (* ------------------------------------------------------------------------------------- *)
@@ -822,23 +966,23 @@ Section Proofs.
   (* C16_batching_independent (partial: both runs satisfy the D10 exclusion for their range limit) *)
 
   Theorem batching_independent_partial (fl1 fl2 : flavour)
-          (ops1 ops2 : list (top LogT)) (v : view) (o1 o2 : list bool) :
+          (ops1 ops2 : list (top LogT)) (v : view) (o1 o2 : list bool) (rpc1 db1 rpc2 db2 : list fault) :
     0 < fl_range fl1 -> 0 <= fl_depth fl1 -> 0 <= fl_first_start fl1 ->
     0 < fl_range fl2 -> 0 <= fl_depth fl2 -> fl_first_start fl2 = fl_first_start fl1 ->
-    let h1 := ops1 ++ [TSync v o1] in
-    let h2 := ops2 ++ [TSync v o2] in
-    tuniverse_ok match_log fl1 (top_views h1) -> theads_ok fl1 tginit h1 -> no_decrypt h1 ->
-    tuniverse_ok match_log fl2 (top_views h2) -> theads_ok fl2 tginit h2 -> no_decrypt h2 ->
+    let h1 := ops1 ++ [TSync v o1 rpc1 db1] in
+    let h2 := ops2 ++ [TSync v o2 rpc2 db2] in
+    tuniverse_ok fl1 (top_views h1) -> theads_ok fl1 tginit h1 -> td10_free fl1 tginit h1 -> no_decrypt h1 ->
+    tuniverse_ok fl2 (top_views h2) -> theads_ok fl2 tginit h2 -> td10_free fl2 tginit h2 -> no_decrypt h2 ->
     forall k h b,
       st_status (ts_core (tg_st (tgrun fl1 h1))) = Some (k, h) ->
       st_status (ts_core (tg_st (tgrun fl2 h2))) = Some (k, h) ->
       block_at v k = Some b -> bk_hash b = h ->
       forall f, In f (ts_fired (tg_st (tgrun fl1 h1))) <-> In f (ts_fired (tg_st (tgrun fl2 h2))).
   Proof.
-    intros HR1 HD1 Hfs1 HR2 HD2 Hfs2 h1 h2 HU1 Hok1 Hnd1 HU2 Hok2 Hnd2 k h b Hst1 Hst2 Hb Hh f.
+    intros HR1 HD1 Hfs1 HR2 HD2 Hfs2 h1 h2 HU1 Hok1 Hd1 Hnd1 HU2 Hok2 Hd2 Hnd2 k h b Hst1 Hst2 Hb Hh f.
     assert (Hfs2' : 0 <= fl_first_start fl2) by lia.
-    destruct (trigger_exact fl1 HR1 HD1 Hfs1 ops1 v o1 HU1 Hok1 k h b Hst1 Hb Hh) as (_ & S1 & C1).
-    destruct (trigger_exact fl2 HR2 HD2 Hfs2' ops2 v o2 HU2 Hok2 k h b Hst2 Hb Hh) as (_ & S2 & C2).
+    destruct (trigger_exact fl1 HR1 HD1 Hfs1 ops1 v o1 rpc1 db1 HU1 Hok1 Hd1 k h b Hst1 Hb Hh) as (_ & _ & S1 & C1).
+    destruct (trigger_exact fl2 HR2 HD2 Hfs2' ops2 v o2 rpc2 db2 HU2 Hok2 Hd2 k h b Hst2 Hb Hh) as (_ & _ & S2 & C2).
     fold h1 in S1, C1. fold h2 in S2, C2.
     rewrite (decrypted_nil fl1 h1 Hnd1) in C1. rewrite (decrypted_nil fl2 h2 Hnd2) in C2.
     rewrite Hfs2 in S2, C2.
